@@ -1189,6 +1189,40 @@ theorem runFrom_nofin (cfg : Cfg) (hk : ∀ t, cfg.kind t ≠ .fin) (sched : Lis
 
 end Dist
 
+/-! ## Distributed variant with explicit names: refinement to `Dist` when the names agree -/
+namespace DistN
+
+/-- the `Dist` configuration seen when every worker computes the same names -/
+def toDist (cfg : Cfg) : Dist.Cfg := { kind := cfg.kind, worker := cfg.worker }
+
+set_option linter.unusedSimpArgs false in
+theorem proj_step (cfg : Cfg) (L V : Nat) (hL : ∀ w, cfg.lockName w = L) (hV : ∀ w, cfg.varName w = V)
+    (s : State) (t : Nat) : proj L V (step cfg s t) = Dist.step (toDist cfg) (proj L V s) t := by
+  unfold step Dist.step
+  simp only [hL, hV, toDist]
+  have hp : (proj L V s).pc t = s.pc t := rfl
+  rw [hp]
+  cases hpc : s.pc t <;> simp only []
+  all_goals first
+    | rfl
+    | (simp only [proj]; split <;> rfl)
+    | skip
+  all_goals
+    simp [proj, State.goto, State.setWid, State.setVar, State.setLock, Dist.State.goto, Dist.State.setWid]
+  all_goals (try split) <;> simp_all
+
+theorem proj_runFrom (cfg : Cfg) (L V : Nat) (hL : ∀ w, cfg.lockName w = L) (hV : ∀ w, cfg.varName w = V)
+    (sched : List Nat) :
+    ∀ s, proj L V (runFrom cfg s sched) = Dist.runFrom (toDist cfg) (proj L V s) sched := by
+  induction sched with
+  | nil => intro s; rfl
+  | cons t rest ih =>
+    intro s
+    show proj L V (runFrom cfg (step cfg s t) rest) = Dist.runFrom (toDist cfg) (Dist.step (toDist cfg) (proj L V s) t) rest
+    rw [ih, proj_step cfg L V hL hV]
+
+end DistN
+
 /-! ## Schedules: counting effective (non-stutter) steps, generic in the transition system -/
 namespace Sched
 
